@@ -3,8 +3,7 @@
 
   Hypotheses: `WFFile F`; `Accepts cfg F` (the target mesh type takes the file's topology type and every face /
   cell as written — always so for a polyhedral mesh without topology check, `accepts_poly`); `SizeOk F` (file
-  length < 2^64, the width of the chunk length field); `ModeFits` for faces and cells (fixed valence × count
-  < 2^32: the reader multiplies them in 32 bits, finding O2-topo-valence-product-overflow).
+  length < 2^64, the width of the chunk length field).
   The reader state after each of the writer's chunks is explicit (`mkS`, `step_*`, `runChunks_writer`).
   Proof-only file (not imported by the judge).  Core only.
 -/
@@ -102,7 +101,7 @@ theorem step_edges (hw : WF F) :
       growStor_blank_edges, Nat.zero_add] at this ⊢
     exact this
 
-theorem step_faces (hw : WF F) (hacc : Accepts cfg F) (hfit : ModeFits F.faces) :
+theorem step_faces (hw : WF F) (hacc : Accepts cfg F) :
     runChunks cfg (mkS F true true F.edges [] [] 0 false) (faceCh F) = .ok (mkS F true true F.edges F.faces [] 0 false) := by
   unfold faceCh
   by_cases hp : F.faces.length = 0
@@ -117,7 +116,7 @@ theorem step_faces (hw : WF F) (hacc : Accepts cfg F) (hfit : ModeFits F.faces) 
     simp only [maxHandleIdx] at hnE hnF
     have hok : ListsOk F.faces (writerValMode (F.faces.map List.length)).1 (writerValMode (F.faces.map List.length)).2
         (suitableIntEncoding (2 * F.edges.length)) 0 (2 * (mkS F true true F.edges [] [] 0 false).edges.length) := by
-      refine ⟨by omega, by omega, suitable_encOk _, by omega, by simp [mkS]; omega, ?_, writerValMode_ok F.faces hne hw.faceLen hfit⟩
+      refine ⟨by omega, by omega, suitable_encOk _, by omega, by simp [mkS]; omega, ?_, writerValMode_ok F.faces hne hw.faceLen⟩
       intro l hl
       refine ⟨fun h => by have := (hw.faceLen l hl).1; simp [h] at this, ?_⟩
       intro h hh
@@ -132,7 +131,7 @@ theorem step_faces (hw : WF F) (hacc : Accepts cfg F) (hfit : ModeFits F.faces) 
       growStor_blank_faces, Nat.zero_add] at this ⊢
     exact this
 
-theorem step_cells (hw : WF F) (hacc : Accepts cfg F) (hfit : ModeFits F.cells) :
+theorem step_cells (hw : WF F) (hacc : Accepts cfg F) :
     runChunks cfg (mkS F true true F.edges F.faces [] 0 false) (cellCh F)
       = .ok (mkS F true true F.edges F.faces F.cells 0 false) := by
   unfold cellCh
@@ -148,7 +147,7 @@ theorem step_cells (hw : WF F) (hacc : Accepts cfg F) (hfit : ModeFits F.cells) 
     simp only [maxHandleIdx] at hnF hnC
     have hok : ListsOk F.cells (writerValMode (F.cells.map List.length)).1 (writerValMode (F.cells.map List.length)).2
         (suitableIntEncoding (2 * F.faces.length)) 0 (2 * (mkS F true true F.edges F.faces [] 0 false).faces.length) := by
-      refine ⟨by omega, by omega, suitable_encOk _, by omega, by simp [mkS]; omega, ?_, writerValMode_ok F.cells hne hw.cellLen hfit⟩
+      refine ⟨by omega, by omega, suitable_encOk _, by omega, by simp [mkS]; omega, ?_, writerValMode_ok F.cells hne hw.cellLen⟩
       intro l hl
       refine ⟨fun h => by have := (hw.cellLen l hl).1; simp [h] at this, ?_⟩
       intro h hh
@@ -244,10 +243,10 @@ theorem finish_done : finish (topoDone F F.props.length true) = .ok F := by
   intro p _; rfl
 
 /-- all chunks of the writer, applied in order to the initial reader state -/
-theorem runChunks_writer (hw : WF F) (hacc : Accepts cfg F) (hf : ModeFits F.faces) (hc : ModeFits F.cells) :
+theorem runChunks_writer (hw : WF F) (hacc : Accepts cfg F) :
     runChunks cfg (mkS F false false [] [] [] 0 false) (writerChunkDs F) = .ok (topoDone F F.props.length true) := by
   simp only [writerChunkDs, frontChunkDs, runChunks_append, step_dirp cfg F hw, step_vert cfg F hw, step_edges cfg F hw,
-    step_faces cfg F hw hacc hf, step_cells cfg F hw hacc hc, steps_props cfg F hw F.props 0 rfl (Nat.zero_le _)]
+    step_faces cfg F hw hacc, step_cells cfg F hw hacc, steps_props cfg F hw F.props 0 rfl (Nat.zero_le _)]
   exact runChunks_one cfg _ _ _ (pc_eof cfg _ rfl)
 
 theorem ofNat_toNat_small (n : Nat) (h : n < 256) : (UInt8.ofNat n).toNat = n := toNat_ofNat_lt h
@@ -319,11 +318,11 @@ theorem decodeStream_header (hw : WF F) (hacc : Accepts cfg F) (body : Bytes) :
 
 /-- **C06, writer round trip**: what the writer produces for a well-formed file whose faces and cells the target
     mesh type accepts reads back as that file -/
-theorem decode_encode (hwf : WFFile F = true) (hacc : Accepts cfg F) (hs : SizeOk F)
-    (hf : ModeFits F.faces) (hc : ModeFits F.cells) : decode cfg (encode F) = .ok F := by
+theorem decode_encode (hwf : WFFile F = true) (hacc : Accepts cfg F) (hs : SizeOk F) :
+    decode cfg (encode F) = .ok F := by
   have hw := WF.of F hwf
   unfold decode
   rw [encode_eq, decodeStream_header cfg F hw hacc, loop_chunks cfg _ (writerChunkDs_fits F hs), mkS_init,
-    runChunks_writer cfg F hw hacc hf hc]
+    runChunks_writer cfg F hw hacc]
   exact finish_done F
 end OVM.Ovmb
